@@ -348,7 +348,8 @@ def statsOnlyElems : List String :=
 def chkAggC (t : C07.Tracker) (a : List String) : C07.Tracker × String :=
   let (op, obs) := splitBar a
   match op with
-  | "new" :: _ :: _ :: _ => ({}, "holds")
+  | "new" :: act :: _ :: _ => ({ activeT := act.toNat?.getD 0 }, "holds")
+  | ["adv", d] => ({ t with now := t.now + d.toNat?.getD 0 }, "holds")
   | _ =>
   if t.off then (t, "na")
   else match op with
@@ -372,25 +373,27 @@ def chkAggC (t : C07.Tracker) (a : List String) : C07.Tracker × String :=
     match parseMsg rest, obs with
     | some rs, ["ok"] => (rs.foldl (fun t r => t.onRecord r) t, "holds")
     | _, _ => (t, "fails record-refused")
-  | ["scan", _, _] =>
+  | ["scan", fails, _] =>
+    -- (the retry bound: Tracker.onScan; a scan in which no callback can fail examines every due item)
+    let t1 := t.onScan (fails == "-")
     match obs with
     | ["cb", cbs, _res] =>
-      if cbs == "-" then (t, "holds")
+      if cbs == "-" then (t1, "holds")
       else
         let shown := (cbs.splitOn ";").map parseShown
-        if shown.any (·.isNone) then (t, "fails obs")
+        if shown.any (·.isNone) then (t1, "fails obs")
         else
           let ss := shown.filterMap id
           match ss.find? (fun s => !s.ready) with
-          | some s => (t, s!"fails exported-unready {s.key}")
+          | some s => (t1, s!"fails exported-unready {s.key}")
           | none =>
             match ss.filterMap (C07.checkShown t) with
-            | w :: _ => (t, s!"fails export {w}")
-            | [] => (t, "holds")
+            | w :: _ => (t1, s!"fails export {w}")
+            | [] => (t1, "holds")
     | _ => (t, "fails obs")
   | ["dump"] =>
     match obs with
-    | ["-"] => ({}, "holds")
+    | ["-"] => ({ t with flows := [] }, "holds")
     | [d] =>
       let shown := (d.splitOn ";").map parseShown
       if shown.any (·.isNone) then (t, "fails obs")
